@@ -185,7 +185,7 @@ Inductive via :=
                       Sorter().MakeWithRanker(own collator's RankValues), GetIterator() *)
 | VDefault.        (* through Sorter[V]().Make(): the class's default ranker *)
 
-Record opdesc := {
+Record opdesc := OD {
   od_fam : fam;
   od_kind : ckind;
   od_via : via;
